@@ -16,17 +16,19 @@ struct Scenario {
 }
 
 fn scenarios(thorough: bool) -> Vec<Scenario> {
-  // call table of harness/loomh: 0 All(A=5) 1 Quote(A=500) 2 All(A=42) 3 Quote(A=5) 4 All(A=500) 5 Quote(A=42)
+  // call table of harness/loomh: 0 All(A=5) 1 Quote(A=500) 2 All(A=42) 3 Quote(A=5) 4 All(A=500) 5 Quote(A=42) 6 Many(S=abcz) 7 Many(S=xyz)
   let mut v = vec![
     Scenario { plan: "1/3", what: "two threads, the decision that invokes the decision service as a function, different inputs", bound: "2" },
     Scenario { plan: "0/2", what: "two threads, the decision over table, regular expression and temporal decisions, different inputs", bound: "2" },
     Scenario { plan: "0/1", what: "two threads, different invocables", bound: "2" },
+    Scenario { plan: "6/7", what: "two threads, a decision that applies twenty different regular expressions to its input (more distinct keys than a small bounded cache holds)", bound: "2" },
     Scenario { plan: "0,0/2", what: "two threads, one repeating its own call while the other evaluates the same decision with another input (what a call site keeps between a thread's own calls)", bound: "2" },
   ];
   if thorough {
     for s in v.iter_mut().take(3) {
       s.bound = "3";
     }
+    v.push(Scenario { plan: "6,6/7", what: "two threads, the twenty-pattern decision, one thread repeating its call", bound: "2" });
     v.push(Scenario { plan: "3,3/1", what: "two threads, one repeating the service-invoking decision while the other evaluates it with another input", bound: "2" });
     v.push(Scenario { plan: "1,0/3,2", what: "two threads, two calls each, same invocables in the same order", bound: "2" });
     v.push(Scenario { plan: "1,2/4,3", what: "two threads, two calls each, different invocables crossing", bound: "2" });
@@ -66,6 +68,16 @@ pub fn prepare(run: &Run) -> Option<(String, J)> {
     }
   }
   Some((format!("{}/target/loom/release/loomh", root), summary))
+}
+
+/// A failure of the exploration itself - loom meeting something it cannot model (an object that outlives an execution, a
+/// primitive it does not provide) - is not a statement about the code: it is reported as a NOTE and the scenario counts as
+/// not explored.
+pub fn loom_artefact(stderr: &str) -> Option<String> {
+  stderr
+    .lines()
+    .find(|l| l.contains("[loom internal bug]") || l.contains("unexpected object stored at reference") || l.contains("cannot access a scoped thread local") || l.contains("Model exceeded maximum number of branches") || l.contains("cannot access a Thread Local Storage value"))
+    .map(|l| l.trim().chars().take(300).collect())
 }
 
 fn classify(stderr: &str) -> (String, String) {
@@ -151,6 +163,10 @@ pub fn run() {
       run.outcome(&format!("{}:held", s.plan));
     } else if out.status.code() == Some(2) {
       run.machinery_error(&format!("loom harness, scenario {}: {}", s.plan, stderr.lines().rev().take(3).collect::<Vec<_>>().join(" | ")));
+    } else if let Some(why) = loom_artefact(&stderr) {
+      all_complete = false;
+      println!("NOTE: scenario {} could not be explored - loom cannot model a construct of the instrumented code ({}); this check says nothing about that scenario", s.plan, why);
+      per.insert(s.plan.to_string(), json!({"what": s.what, "complete": false, "not_explored": why}));
     } else {
       let (class, detail) = classify(&stderr);
       if class.is_empty() {
@@ -159,7 +175,7 @@ pub fn run() {
       } else {
         per.insert(s.plan.to_string(), json!({"what": s.what, "complete": false, "failed": class}));
         run.violation(
-          &format!("{}:{}", class, if s.plan.contains("1") || s.plan.contains("3") || s.plan.contains("5") { "service-invoking-decision-involved" } else { "plain-decisions" }),
+          &format!("{}:{}", class, if s.plan.contains('1') || s.plan.contains('3') || s.plan.contains('5') { "service-invoking-decision-involved" } else { "plain-decisions" }),
           &format!("scenario {} ({}; preemption bound {}): {}", s.plan, s.what, bound, detail),
           replay,
         );
